@@ -68,4 +68,40 @@ def J.blocked : J → Bool
   | .call .rebind b r => b.holds || r.blocked
   | .call _ b r => b.blocked || r.blocked
 
+/-- sequencing of two Jaxprs (the equations of the first, then those of the second) -/
+def J.append : J → J → J
+  | .done, k => k
+  | .prim r, k => .prim (r.append k)
+  | .site i r, k => .site i (r.append k)
+  | .call kd b r, k => .call kd b (r.append k)
+
+/-- the pre-pass of ADEV (`_eval_inlining_site_calls`, fix d3d169e) and what State does on the fly (fix 9b3be7d):
+    the body of every `inline` call is spliced in place of the call, at every depth the interpreter enters -/
+def J.inlineCalls : J → J
+  | .done => .done
+  | .prim r => .prim r.inlineCalls
+  | .site i r => .site i r.inlineCalls
+  | .call .inline b r => b.inlineCalls.append r.inlineCalls
+  | .call .interp b r => .call .interp b.inlineCalls r.inlineCalls
+  | .call .rebind b r => .call .rebind b r.inlineCalls
+
+/-- no `inline` call is left where the interpreter looks -/
+def J.noInline : J → Bool
+  | .done => true
+  | .prim r => r.noInline
+  | .site _ r => r.noInline
+  | .call .inline _ _ => false
+  | .call .interp b r => b.noInline && r.noInline
+  | .call .rebind _ r => r.noInline
+
+/-- is there, where the interpreter looks, an `inline` call that still holds a site (what the real pre-pass,
+    which leaves site-free calls alone, must have removed) -/
+def J.siteInline : J → Bool
+  | .done => false
+  | .prim r => r.siteInline
+  | .site _ r => r.siteInline
+  | .call .inline b r => b.holds || r.siteInline
+  | .call .interp b r => b.siteInline || r.siteInline
+  | .call .rebind _ r => r.siteInline
+
 end Genjax.Interp
